@@ -30,7 +30,9 @@ import (
 	"net/http"
 	"net/http/httptest"
 	"net/url"
+	"os"
 	"reflect"
+	"runtime"
 	"runtime/debug"
 	"strconv"
 	"strings"
@@ -693,6 +695,10 @@ func (dr *Driver) runStream(st *svcState, ex *Exchange, ctx context.Context) {
 					stable, last = 0, ""
 				}
 				if stable >= 60 {
+					if os.Getenv("VERIF_DEBUG_STACKS") != "" {
+						buf := make([]byte, 1<<20)
+						fmt.Fprintf(os.Stderr, "DEADLOCK %s\n%s\n", last, buf[:runtime.Stack(buf, true)])
+					}
 					ex.sUpd("deadlock", func(r *StreamRec) { r.Deadlock = last })
 					cancel()
 					ex.mu.Lock()
@@ -718,8 +724,25 @@ func (dr *Driver) runStream(st *svcState, ex *Exchange, ctx context.Context) {
 		}
 	}
 	wait(done, "client end still running")
-	// the client end is finished; the service method may still be on its way out
+	// the client end is finished (returned, or panicked: then it never closed its connection): it waits for nothing
+	ex.ws.clientWait.Store("")
+	// the service method may still be on its way out; when the client end is gone without closing (a panic in
+	// the generated client), its process would be gone too: the socket is closed for it after a short grace
 	if ex.ws.handlerIn.Load() {
+		select {
+		case <-ex.ws.handlerDone:
+		case <-time.After(200 * time.Millisecond):
+			ex.mu.Lock()
+			panicked := ex.Panic != ""
+			conns := append([]net.Conn(nil), ex.ws.conns...)
+			ex.mu.Unlock()
+			if panicked {
+				for _, c := range conns {
+					c.Close()
+				}
+				ex.sUpd("client_gone", nil)
+			}
+		}
 		wait(ex.ws.handlerDone, "service method still running")
 	}
 	ex.collectFrames()
